@@ -315,6 +315,34 @@ def judge(case, col):
                 what = 'nothing replaced' if sa == st0 else f'expected vs observed: {dd}'
                 rec('replace', slot, f'replacing the {type(tb).__name__} at {slot}: {what}')
                 bad_slots.add(slot)
+        # (b') nodes in open positions (LIMIT / OFFSET constants, aliases ...) that the walker chose to show to the visitor:
+        # whatever is shown can be replaced, and the replacement has to land on that node and nothing else
+        shown_open = [j for j, (o, s_) in enumerate(opens) if isinstance(o, ASTNode) and cnt[id(o)] > 0]
+        for j in shown_open[:MAXK]:
+            slot = 'open:' + opens[j][1]
+            Ta, Tb = W.clone(P), W.clone(P)
+            oa = W.open_nodes(Ta, {id(e.node) for e in W.ref_walk(Ta)})
+            ob = W.open_nodes(Tb, {id(e.node) for e in W.ref_walk(Tb)})
+            if len(oa) != len(opens) or len(ob) != len(opens):
+                continue
+            ta, tb = oa[j][0], ob[j][0]
+            ma, mb = marker(ta), marker(tb)
+
+            def cbo(node, is_table=False, is_target=False, parent_query=None, **kw):
+                return ma if node is ta else None
+            passes += 1
+            classes.append('replace-open-position')
+            try:
+                query_traversal(Ta, cbo)
+            except Exception as e:
+                rec('crash', site_of(e), f'replacing {slot}: {type(e).__name__}: {e}', ['replace'])
+                continue
+            E = W.replace_everywhere(Tb, tb, mb)
+            sa, se = struct(Ta), struct(E)
+            if sa != se:
+                dd = diff(se, sa)
+                what = 'nothing replaced' if sa == st0 else f'expected vs observed: {dd}'
+                rec('replace', slot, f'replacing the {type(tb).__name__} at {slot}: {what}', ['open-position'])
         # (c)
         parents = {e.parent for e in R0}
         leaves = [i for i in visited_idx if i not in parents and i != 0 and mult[id(R0[i].node)] == 1]
